@@ -2,7 +2,7 @@
    Models: Gram/Run.v (the generated parser's main loop), Gram/Minimize.v (lalr/minimize.go and the finite
    quotient check).  Only statements, an example and Print Assumptions here. *)
 From Coq Require Import List ZArith Bool.
-From TM Require Import Gram.PTables Gram.Run Gram.Minimize Gram.Minimize_proofs.
+From TM Require Import Gram.PTables Gram.Optimize Gram.Run Gram.Minimize Gram.Minimize_proofs Gram.MinNumber_proofs.
 Import ListNotations.
 Local Open Scope Z_scope.
 
@@ -62,3 +62,30 @@ Proof. vm_compute. repeat split; reflexivity. Qed.
 
 Print Assumptions C06_minimized_parser_simulates.
 Print Assumptions C06_quotient_simulation.
+
+(* ================= the model of lalr.minimize always produces a valid quotient ================= *)
+(* (1) first-occurrence numbering (container.IntSliceSet.Insert in a loop): as many ids as signatures, every id below
+   the count, equal ids exactly for equal signatures, every id below the count is used, the count is the number of
+   distinct signatures, and the numbering of a list extends the numbering of every prefix by first occurrence. *)
+Theorem C06_number_all_spec : forall sigs ids c, number_all sigs = (ids, c) ->
+  length ids = length sigs /\
+  (forall i, (i < length sigs)%nat -> 0 <= nth i ids 0 < c) /\
+  (forall i j, (i < length sigs)%nat -> (j < length sigs)%nat -> (nth i ids 0 = nth j ids 0 <-> nth i sigs [] = nth j sigs [])) /\
+  (forall k, 0 <= k < c -> exists i, (i < length sigs)%nat /\ nth i ids 0 = k) /\
+  (exists seen, NoDup seen /\ (forall x, In x seen <-> In x sigs) /\ c = Z.of_nat (length seen)).
+Proof. exact number_all_spec. Qed.
+
+Theorem C06_number_all_first_occurrence : forall a x ids c, number_all a = (ids, c) ->
+  exists k c', number_all (a ++ [x]) = (ids ++ [k], c') /\
+    (~ In x a -> k = c /\ c' = c + 1) /\
+    (In x a -> c' = c /\ exists j, (j < length a)%nat /\ nth j a [] = x /\ k = nth j ids 0).
+Proof. exact number_all_snoc. Qed.
+
+(* pairwise distinct signatures at the front of the list are numbered 0, 1, 2, ... *)
+Theorem C06_number_all_distinct_prefix : forall a b ids c, NoDup a -> number_all (a ++ b) = (ids, c) ->
+  forall i, (i < length a)%nat -> nth i ids 0 = Z.of_nat i.
+Proof. exact number_all_nodup_prefix. Qed.
+
+Print Assumptions C06_number_all_spec.
+Print Assumptions C06_number_all_first_occurrence.
+Print Assumptions C06_number_all_distinct_prefix.
